@@ -180,7 +180,7 @@ class C12(Sim):
         "defuzzifiers, rule blocks, terms in arm engine": "real (twin engine supplies raw values)",
         "failures": "injected exception kinds, None defuzzifier, faulty component subclasses, FP traps",
     }
-    tiers = {"quick": (4000, 60.0), "thorough": (400000, 900.0)}
+    tiers = {"quick": (12000, 60.0), "thorough": (1500000, 1500.0)}
     chunk = 100
     expected_probes = [
         "fill_forward_inside_batch", "fill_forward_across_call_boundary", "default_applied_after_lock_previous_miss",
